@@ -34,6 +34,7 @@ RULE = (
     "non-trivial (generated) = the deciding monomial is not the leading monomial of both operands, or >= 3 terms "
     "share the deciding grade; enumerated pairs with different polynomials are distinct by construction."
 )
+LEVEL_TEXT += (" Operand pairs stored in a common, not index-ordered, name tuple, and uint8/uint64/int8 storage with values at the type limits, are part of the generated space.")
 ASSUMPTIONS = [
     "real coefficients only (complex numbers have no order; numpy compares real parts)",
     "reference monomial order reproduces the documented glexsort semantics (checked against the docstring examples in pbt.selftest)",
